@@ -35,7 +35,7 @@ PROPS = {
     ),
     "C02": dict(
         title="Launchpad-token solvency",
-        lean=["LP.Props.C02", "LP.Props.C01reachV2", "LP.Props.C01reachV1", "LP.Props.C01reachG1"],
+        lean=["LP.Props.C02", "LP.Props.C01reachV2", "LP.Props.C01reachV1", "LP.Props.C01reachG1", "LP.Props.C13reachV2"],
         profiles=[("life", ALL_VARIANTS), ("reserve", GUAR)],
         R={"st": [({"deposit"}, None), ({"claim", "claimPayment"}, FUNDS_MSGS)],
            "xf.lp": {"claim", "claimPayment"}, "lock": ANY},
@@ -88,7 +88,7 @@ PROPS = {
     ),
     "C09": dict(
         title="Each participant settles exactly once",
-        lean=["LP.Props.C09", "LP.Props.C01reachG1", "LP.Props.C14reach"],
+        lean=["LP.Props.C09", "LP.Props.C01reachG1", "LP.Props.C14reach", "LP.Props.C13reachV2"],
         profiles=[("life", ALL_VARIANTS), ("vest", ["guarV1", "guarV2"])],
         R={"st": ({"claim"}, None), "xf": {"claim"}, "lock": {"claim"}, "sft": {"claim"}},
         D={k: {"claim"} for k in ["addr.cl", "addr.ut", "addr.uc", "addr.win", "addr.range", "addr.conf"]},
@@ -119,7 +119,7 @@ PROPS = {
     ),
     "C13": dict(
         title="Vesting is path-independent, monotone, bounded",
-        lean=["LP.Props.C13", "LP.Props.C01reachG1"],
+        lean=["LP.Props.C13", "LP.Props.C01reachG1", "LP.Props.C13reachV2"],
         profiles=[("vest", ["guarV1", "guarV2"]), ("life", ["guarV1", "guarV2"])],
         R={"st": [({"setSchedule1", "setSchedule2"}, None), ({"claim"}, ["Already claimed all", "negative", "cannot subtract", "claimable - claimed", "insufficient funds"])],
            "xf.lp": {"claim"}},
@@ -149,7 +149,7 @@ PROPS = {
     ),
     "C17": dict(
         title="Sale terms frozen",
-        lean=["LP.Props.C17"],
+        lean=["LP.Props.C17", "LP.Props.C13reachV2"],
         profiles=[("timeline", ALL_VARIANTS), ("life", ALL_VARIANTS), ("deploy", ALL_VARIANTS)],
         R={"st": ({"deploy", "setTicketPrice", "setPerTicket", "setNftCost", "setSchedule1", "setSchedule2"}, None)},
         D={"price": ANY, "per": ANY, "cost": ANY, "sched": ANY, "views": ANY},
